@@ -83,6 +83,7 @@ Record st := {
   ehooks : list (nat * nat * nat); (* block-hook calls of entries syncs (session tid, publisher, block), newest first *)
   gtodo : nat -> list nat;        (* ghost: hook calls the running session still owes *)
   goal : nat -> nat;              (* ghost: head up to which ads are reported or owed *)
+  closing : bool;                 (* Subscriber.Close has closed s.closing (doClose has begun) *)
   panicked : bool;                (* nil dereference in asyncSyncAdChain *)
   ordered : bool;                 (* ghost: announcements arrived in chain order *)
   regress : bool;                 (* ghost: some sync was given a stop beyond its head *)
@@ -92,55 +93,57 @@ Record st := {
 }.
 
 Definition set_hmap (s : st) (v : nat -> option nat) : st :=
-  {| hmap := v; next_hid := next_hid s; hpub := hpub s; pending := pending s; ptaker := ptaker s; amu := amu s; smu := smu s; refs := refs s; sem := sem s; latest := latest s; lsrc := lsrc s; pubhead := pubhead s; lastRecv := lastRecv s; lastTaken := lastTaken s; events := events s; hooks := hooks s; ehooks := ehooks s; gtodo := gtodo s; goal := goal s; panicked := panicked s; ordered := ordered s; regress := regress s; nexp := nexp s; next_tid := next_tid s; threads := threads s |}.
+  {| hmap := v; next_hid := next_hid s; hpub := hpub s; pending := pending s; ptaker := ptaker s; amu := amu s; smu := smu s; refs := refs s; sem := sem s; latest := latest s; lsrc := lsrc s; pubhead := pubhead s; lastRecv := lastRecv s; lastTaken := lastTaken s; events := events s; hooks := hooks s; ehooks := ehooks s; gtodo := gtodo s; goal := goal s; closing := closing s; panicked := panicked s; ordered := ordered s; regress := regress s; nexp := nexp s; next_tid := next_tid s; threads := threads s |}.
 Definition set_next_hid (s : st) (v : nat) : st :=
-  {| hmap := hmap s; next_hid := v; hpub := hpub s; pending := pending s; ptaker := ptaker s; amu := amu s; smu := smu s; refs := refs s; sem := sem s; latest := latest s; lsrc := lsrc s; pubhead := pubhead s; lastRecv := lastRecv s; lastTaken := lastTaken s; events := events s; hooks := hooks s; ehooks := ehooks s; gtodo := gtodo s; goal := goal s; panicked := panicked s; ordered := ordered s; regress := regress s; nexp := nexp s; next_tid := next_tid s; threads := threads s |}.
+  {| hmap := hmap s; next_hid := v; hpub := hpub s; pending := pending s; ptaker := ptaker s; amu := amu s; smu := smu s; refs := refs s; sem := sem s; latest := latest s; lsrc := lsrc s; pubhead := pubhead s; lastRecv := lastRecv s; lastTaken := lastTaken s; events := events s; hooks := hooks s; ehooks := ehooks s; gtodo := gtodo s; goal := goal s; closing := closing s; panicked := panicked s; ordered := ordered s; regress := regress s; nexp := nexp s; next_tid := next_tid s; threads := threads s |}.
 Definition set_hpub (s : st) (v : nat -> nat) : st :=
-  {| hmap := hmap s; next_hid := next_hid s; hpub := v; pending := pending s; ptaker := ptaker s; amu := amu s; smu := smu s; refs := refs s; sem := sem s; latest := latest s; lsrc := lsrc s; pubhead := pubhead s; lastRecv := lastRecv s; lastTaken := lastTaken s; events := events s; hooks := hooks s; ehooks := ehooks s; gtodo := gtodo s; goal := goal s; panicked := panicked s; ordered := ordered s; regress := regress s; nexp := nexp s; next_tid := next_tid s; threads := threads s |}.
+  {| hmap := hmap s; next_hid := next_hid s; hpub := v; pending := pending s; ptaker := ptaker s; amu := amu s; smu := smu s; refs := refs s; sem := sem s; latest := latest s; lsrc := lsrc s; pubhead := pubhead s; lastRecv := lastRecv s; lastTaken := lastTaken s; events := events s; hooks := hooks s; ehooks := ehooks s; gtodo := gtodo s; goal := goal s; closing := closing s; panicked := panicked s; ordered := ordered s; regress := regress s; nexp := nexp s; next_tid := next_tid s; threads := threads s |}.
 Definition set_pending (s : st) (v : nat -> option nat) : st :=
-  {| hmap := hmap s; next_hid := next_hid s; hpub := hpub s; pending := v; ptaker := ptaker s; amu := amu s; smu := smu s; refs := refs s; sem := sem s; latest := latest s; lsrc := lsrc s; pubhead := pubhead s; lastRecv := lastRecv s; lastTaken := lastTaken s; events := events s; hooks := hooks s; ehooks := ehooks s; gtodo := gtodo s; goal := goal s; panicked := panicked s; ordered := ordered s; regress := regress s; nexp := nexp s; next_tid := next_tid s; threads := threads s |}.
+  {| hmap := hmap s; next_hid := next_hid s; hpub := hpub s; pending := v; ptaker := ptaker s; amu := amu s; smu := smu s; refs := refs s; sem := sem s; latest := latest s; lsrc := lsrc s; pubhead := pubhead s; lastRecv := lastRecv s; lastTaken := lastTaken s; events := events s; hooks := hooks s; ehooks := ehooks s; gtodo := gtodo s; goal := goal s; closing := closing s; panicked := panicked s; ordered := ordered s; regress := regress s; nexp := nexp s; next_tid := next_tid s; threads := threads s |}.
 Definition set_ptaker (s : st) (v : nat -> option nat) : st :=
-  {| hmap := hmap s; next_hid := next_hid s; hpub := hpub s; pending := pending s; ptaker := v; amu := amu s; smu := smu s; refs := refs s; sem := sem s; latest := latest s; lsrc := lsrc s; pubhead := pubhead s; lastRecv := lastRecv s; lastTaken := lastTaken s; events := events s; hooks := hooks s; ehooks := ehooks s; gtodo := gtodo s; goal := goal s; panicked := panicked s; ordered := ordered s; regress := regress s; nexp := nexp s; next_tid := next_tid s; threads := threads s |}.
+  {| hmap := hmap s; next_hid := next_hid s; hpub := hpub s; pending := pending s; ptaker := v; amu := amu s; smu := smu s; refs := refs s; sem := sem s; latest := latest s; lsrc := lsrc s; pubhead := pubhead s; lastRecv := lastRecv s; lastTaken := lastTaken s; events := events s; hooks := hooks s; ehooks := ehooks s; gtodo := gtodo s; goal := goal s; closing := closing s; panicked := panicked s; ordered := ordered s; regress := regress s; nexp := nexp s; next_tid := next_tid s; threads := threads s |}.
 Definition set_amu (s : st) (v : nat -> option nat) : st :=
-  {| hmap := hmap s; next_hid := next_hid s; hpub := hpub s; pending := pending s; ptaker := ptaker s; amu := v; smu := smu s; refs := refs s; sem := sem s; latest := latest s; lsrc := lsrc s; pubhead := pubhead s; lastRecv := lastRecv s; lastTaken := lastTaken s; events := events s; hooks := hooks s; ehooks := ehooks s; gtodo := gtodo s; goal := goal s; panicked := panicked s; ordered := ordered s; regress := regress s; nexp := nexp s; next_tid := next_tid s; threads := threads s |}.
+  {| hmap := hmap s; next_hid := next_hid s; hpub := hpub s; pending := pending s; ptaker := ptaker s; amu := v; smu := smu s; refs := refs s; sem := sem s; latest := latest s; lsrc := lsrc s; pubhead := pubhead s; lastRecv := lastRecv s; lastTaken := lastTaken s; events := events s; hooks := hooks s; ehooks := ehooks s; gtodo := gtodo s; goal := goal s; closing := closing s; panicked := panicked s; ordered := ordered s; regress := regress s; nexp := nexp s; next_tid := next_tid s; threads := threads s |}.
 Definition set_smu (s : st) (v : nat -> option nat) : st :=
-  {| hmap := hmap s; next_hid := next_hid s; hpub := hpub s; pending := pending s; ptaker := ptaker s; amu := amu s; smu := v; refs := refs s; sem := sem s; latest := latest s; lsrc := lsrc s; pubhead := pubhead s; lastRecv := lastRecv s; lastTaken := lastTaken s; events := events s; hooks := hooks s; ehooks := ehooks s; gtodo := gtodo s; goal := goal s; panicked := panicked s; ordered := ordered s; regress := regress s; nexp := nexp s; next_tid := next_tid s; threads := threads s |}.
+  {| hmap := hmap s; next_hid := next_hid s; hpub := hpub s; pending := pending s; ptaker := ptaker s; amu := amu s; smu := v; refs := refs s; sem := sem s; latest := latest s; lsrc := lsrc s; pubhead := pubhead s; lastRecv := lastRecv s; lastTaken := lastTaken s; events := events s; hooks := hooks s; ehooks := ehooks s; gtodo := gtodo s; goal := goal s; closing := closing s; panicked := panicked s; ordered := ordered s; regress := regress s; nexp := nexp s; next_tid := next_tid s; threads := threads s |}.
 Definition set_refs (s : st) (v : nat -> list nat) : st :=
-  {| hmap := hmap s; next_hid := next_hid s; hpub := hpub s; pending := pending s; ptaker := ptaker s; amu := amu s; smu := smu s; refs := v; sem := sem s; latest := latest s; lsrc := lsrc s; pubhead := pubhead s; lastRecv := lastRecv s; lastTaken := lastTaken s; events := events s; hooks := hooks s; ehooks := ehooks s; gtodo := gtodo s; goal := goal s; panicked := panicked s; ordered := ordered s; regress := regress s; nexp := nexp s; next_tid := next_tid s; threads := threads s |}.
+  {| hmap := hmap s; next_hid := next_hid s; hpub := hpub s; pending := pending s; ptaker := ptaker s; amu := amu s; smu := smu s; refs := v; sem := sem s; latest := latest s; lsrc := lsrc s; pubhead := pubhead s; lastRecv := lastRecv s; lastTaken := lastTaken s; events := events s; hooks := hooks s; ehooks := ehooks s; gtodo := gtodo s; goal := goal s; closing := closing s; panicked := panicked s; ordered := ordered s; regress := regress s; nexp := nexp s; next_tid := next_tid s; threads := threads s |}.
 Definition set_sem (s : st) (v : list nat) : st :=
-  {| hmap := hmap s; next_hid := next_hid s; hpub := hpub s; pending := pending s; ptaker := ptaker s; amu := amu s; smu := smu s; refs := refs s; sem := v; latest := latest s; lsrc := lsrc s; pubhead := pubhead s; lastRecv := lastRecv s; lastTaken := lastTaken s; events := events s; hooks := hooks s; ehooks := ehooks s; gtodo := gtodo s; goal := goal s; panicked := panicked s; ordered := ordered s; regress := regress s; nexp := nexp s; next_tid := next_tid s; threads := threads s |}.
+  {| hmap := hmap s; next_hid := next_hid s; hpub := hpub s; pending := pending s; ptaker := ptaker s; amu := amu s; smu := smu s; refs := refs s; sem := v; latest := latest s; lsrc := lsrc s; pubhead := pubhead s; lastRecv := lastRecv s; lastTaken := lastTaken s; events := events s; hooks := hooks s; ehooks := ehooks s; gtodo := gtodo s; goal := goal s; closing := closing s; panicked := panicked s; ordered := ordered s; regress := regress s; nexp := nexp s; next_tid := next_tid s; threads := threads s |}.
 Definition set_latest (s : st) (v : nat -> nat) : st :=
-  {| hmap := hmap s; next_hid := next_hid s; hpub := hpub s; pending := pending s; ptaker := ptaker s; amu := amu s; smu := smu s; refs := refs s; sem := sem s; latest := v; lsrc := lsrc s; pubhead := pubhead s; lastRecv := lastRecv s; lastTaken := lastTaken s; events := events s; hooks := hooks s; ehooks := ehooks s; gtodo := gtodo s; goal := goal s; panicked := panicked s; ordered := ordered s; regress := regress s; nexp := nexp s; next_tid := next_tid s; threads := threads s |}.
+  {| hmap := hmap s; next_hid := next_hid s; hpub := hpub s; pending := pending s; ptaker := ptaker s; amu := amu s; smu := smu s; refs := refs s; sem := sem s; latest := v; lsrc := lsrc s; pubhead := pubhead s; lastRecv := lastRecv s; lastTaken := lastTaken s; events := events s; hooks := hooks s; ehooks := ehooks s; gtodo := gtodo s; goal := goal s; closing := closing s; panicked := panicked s; ordered := ordered s; regress := regress s; nexp := nexp s; next_tid := next_tid s; threads := threads s |}.
 Definition set_lsrc (s : st) (v : nat -> bool) : st :=
-  {| hmap := hmap s; next_hid := next_hid s; hpub := hpub s; pending := pending s; ptaker := ptaker s; amu := amu s; smu := smu s; refs := refs s; sem := sem s; latest := latest s; lsrc := v; pubhead := pubhead s; lastRecv := lastRecv s; lastTaken := lastTaken s; events := events s; hooks := hooks s; ehooks := ehooks s; gtodo := gtodo s; goal := goal s; panicked := panicked s; ordered := ordered s; regress := regress s; nexp := nexp s; next_tid := next_tid s; threads := threads s |}.
+  {| hmap := hmap s; next_hid := next_hid s; hpub := hpub s; pending := pending s; ptaker := ptaker s; amu := amu s; smu := smu s; refs := refs s; sem := sem s; latest := latest s; lsrc := v; pubhead := pubhead s; lastRecv := lastRecv s; lastTaken := lastTaken s; events := events s; hooks := hooks s; ehooks := ehooks s; gtodo := gtodo s; goal := goal s; closing := closing s; panicked := panicked s; ordered := ordered s; regress := regress s; nexp := nexp s; next_tid := next_tid s; threads := threads s |}.
 Definition set_pubhead (s : st) (v : nat -> nat) : st :=
-  {| hmap := hmap s; next_hid := next_hid s; hpub := hpub s; pending := pending s; ptaker := ptaker s; amu := amu s; smu := smu s; refs := refs s; sem := sem s; latest := latest s; lsrc := lsrc s; pubhead := v; lastRecv := lastRecv s; lastTaken := lastTaken s; events := events s; hooks := hooks s; ehooks := ehooks s; gtodo := gtodo s; goal := goal s; panicked := panicked s; ordered := ordered s; regress := regress s; nexp := nexp s; next_tid := next_tid s; threads := threads s |}.
+  {| hmap := hmap s; next_hid := next_hid s; hpub := hpub s; pending := pending s; ptaker := ptaker s; amu := amu s; smu := smu s; refs := refs s; sem := sem s; latest := latest s; lsrc := lsrc s; pubhead := v; lastRecv := lastRecv s; lastTaken := lastTaken s; events := events s; hooks := hooks s; ehooks := ehooks s; gtodo := gtodo s; goal := goal s; closing := closing s; panicked := panicked s; ordered := ordered s; regress := regress s; nexp := nexp s; next_tid := next_tid s; threads := threads s |}.
 Definition set_lastRecv (s : st) (v : nat -> nat) : st :=
-  {| hmap := hmap s; next_hid := next_hid s; hpub := hpub s; pending := pending s; ptaker := ptaker s; amu := amu s; smu := smu s; refs := refs s; sem := sem s; latest := latest s; lsrc := lsrc s; pubhead := pubhead s; lastRecv := v; lastTaken := lastTaken s; events := events s; hooks := hooks s; ehooks := ehooks s; gtodo := gtodo s; goal := goal s; panicked := panicked s; ordered := ordered s; regress := regress s; nexp := nexp s; next_tid := next_tid s; threads := threads s |}.
+  {| hmap := hmap s; next_hid := next_hid s; hpub := hpub s; pending := pending s; ptaker := ptaker s; amu := amu s; smu := smu s; refs := refs s; sem := sem s; latest := latest s; lsrc := lsrc s; pubhead := pubhead s; lastRecv := v; lastTaken := lastTaken s; events := events s; hooks := hooks s; ehooks := ehooks s; gtodo := gtodo s; goal := goal s; closing := closing s; panicked := panicked s; ordered := ordered s; regress := regress s; nexp := nexp s; next_tid := next_tid s; threads := threads s |}.
 Definition set_lastTaken (s : st) (v : nat -> nat) : st :=
-  {| hmap := hmap s; next_hid := next_hid s; hpub := hpub s; pending := pending s; ptaker := ptaker s; amu := amu s; smu := smu s; refs := refs s; sem := sem s; latest := latest s; lsrc := lsrc s; pubhead := pubhead s; lastRecv := lastRecv s; lastTaken := v; events := events s; hooks := hooks s; ehooks := ehooks s; gtodo := gtodo s; goal := goal s; panicked := panicked s; ordered := ordered s; regress := regress s; nexp := nexp s; next_tid := next_tid s; threads := threads s |}.
+  {| hmap := hmap s; next_hid := next_hid s; hpub := hpub s; pending := pending s; ptaker := ptaker s; amu := amu s; smu := smu s; refs := refs s; sem := sem s; latest := latest s; lsrc := lsrc s; pubhead := pubhead s; lastRecv := lastRecv s; lastTaken := v; events := events s; hooks := hooks s; ehooks := ehooks s; gtodo := gtodo s; goal := goal s; closing := closing s; panicked := panicked s; ordered := ordered s; regress := regress s; nexp := nexp s; next_tid := next_tid s; threads := threads s |}.
 Definition set_events (s : st) (v : list event) : st :=
-  {| hmap := hmap s; next_hid := next_hid s; hpub := hpub s; pending := pending s; ptaker := ptaker s; amu := amu s; smu := smu s; refs := refs s; sem := sem s; latest := latest s; lsrc := lsrc s; pubhead := pubhead s; lastRecv := lastRecv s; lastTaken := lastTaken s; events := v; hooks := hooks s; ehooks := ehooks s; gtodo := gtodo s; goal := goal s; panicked := panicked s; ordered := ordered s; regress := regress s; nexp := nexp s; next_tid := next_tid s; threads := threads s |}.
+  {| hmap := hmap s; next_hid := next_hid s; hpub := hpub s; pending := pending s; ptaker := ptaker s; amu := amu s; smu := smu s; refs := refs s; sem := sem s; latest := latest s; lsrc := lsrc s; pubhead := pubhead s; lastRecv := lastRecv s; lastTaken := lastTaken s; events := v; hooks := hooks s; ehooks := ehooks s; gtodo := gtodo s; goal := goal s; closing := closing s; panicked := panicked s; ordered := ordered s; regress := regress s; nexp := nexp s; next_tid := next_tid s; threads := threads s |}.
 Definition set_hooks (s : st) (v : list (nat * nat * nat)) : st :=
-  {| hmap := hmap s; next_hid := next_hid s; hpub := hpub s; pending := pending s; ptaker := ptaker s; amu := amu s; smu := smu s; refs := refs s; sem := sem s; latest := latest s; lsrc := lsrc s; pubhead := pubhead s; lastRecv := lastRecv s; lastTaken := lastTaken s; events := events s; hooks := v; ehooks := ehooks s; gtodo := gtodo s; goal := goal s; panicked := panicked s; ordered := ordered s; regress := regress s; nexp := nexp s; next_tid := next_tid s; threads := threads s |}.
+  {| hmap := hmap s; next_hid := next_hid s; hpub := hpub s; pending := pending s; ptaker := ptaker s; amu := amu s; smu := smu s; refs := refs s; sem := sem s; latest := latest s; lsrc := lsrc s; pubhead := pubhead s; lastRecv := lastRecv s; lastTaken := lastTaken s; events := events s; hooks := v; ehooks := ehooks s; gtodo := gtodo s; goal := goal s; closing := closing s; panicked := panicked s; ordered := ordered s; regress := regress s; nexp := nexp s; next_tid := next_tid s; threads := threads s |}.
 Definition set_ehooks (s : st) (v : list (nat * nat * nat)) : st :=
-  {| hmap := hmap s; next_hid := next_hid s; hpub := hpub s; pending := pending s; ptaker := ptaker s; amu := amu s; smu := smu s; refs := refs s; sem := sem s; latest := latest s; lsrc := lsrc s; pubhead := pubhead s; lastRecv := lastRecv s; lastTaken := lastTaken s; events := events s; hooks := hooks s; ehooks := v; gtodo := gtodo s; goal := goal s; panicked := panicked s; ordered := ordered s; regress := regress s; nexp := nexp s; next_tid := next_tid s; threads := threads s |}.
+  {| hmap := hmap s; next_hid := next_hid s; hpub := hpub s; pending := pending s; ptaker := ptaker s; amu := amu s; smu := smu s; refs := refs s; sem := sem s; latest := latest s; lsrc := lsrc s; pubhead := pubhead s; lastRecv := lastRecv s; lastTaken := lastTaken s; events := events s; hooks := hooks s; ehooks := v; gtodo := gtodo s; goal := goal s; closing := closing s; panicked := panicked s; ordered := ordered s; regress := regress s; nexp := nexp s; next_tid := next_tid s; threads := threads s |}.
 Definition set_gtodo (s : st) (v : nat -> list nat) : st :=
-  {| hmap := hmap s; next_hid := next_hid s; hpub := hpub s; pending := pending s; ptaker := ptaker s; amu := amu s; smu := smu s; refs := refs s; sem := sem s; latest := latest s; lsrc := lsrc s; pubhead := pubhead s; lastRecv := lastRecv s; lastTaken := lastTaken s; events := events s; hooks := hooks s; ehooks := ehooks s; gtodo := v; goal := goal s; panicked := panicked s; ordered := ordered s; regress := regress s; nexp := nexp s; next_tid := next_tid s; threads := threads s |}.
+  {| hmap := hmap s; next_hid := next_hid s; hpub := hpub s; pending := pending s; ptaker := ptaker s; amu := amu s; smu := smu s; refs := refs s; sem := sem s; latest := latest s; lsrc := lsrc s; pubhead := pubhead s; lastRecv := lastRecv s; lastTaken := lastTaken s; events := events s; hooks := hooks s; ehooks := ehooks s; gtodo := v; goal := goal s; closing := closing s; panicked := panicked s; ordered := ordered s; regress := regress s; nexp := nexp s; next_tid := next_tid s; threads := threads s |}.
 Definition set_goal (s : st) (v : nat -> nat) : st :=
-  {| hmap := hmap s; next_hid := next_hid s; hpub := hpub s; pending := pending s; ptaker := ptaker s; amu := amu s; smu := smu s; refs := refs s; sem := sem s; latest := latest s; lsrc := lsrc s; pubhead := pubhead s; lastRecv := lastRecv s; lastTaken := lastTaken s; events := events s; hooks := hooks s; ehooks := ehooks s; gtodo := gtodo s; goal := v; panicked := panicked s; ordered := ordered s; regress := regress s; nexp := nexp s; next_tid := next_tid s; threads := threads s |}.
+  {| hmap := hmap s; next_hid := next_hid s; hpub := hpub s; pending := pending s; ptaker := ptaker s; amu := amu s; smu := smu s; refs := refs s; sem := sem s; latest := latest s; lsrc := lsrc s; pubhead := pubhead s; lastRecv := lastRecv s; lastTaken := lastTaken s; events := events s; hooks := hooks s; ehooks := ehooks s; gtodo := gtodo s; goal := v; closing := closing s; panicked := panicked s; ordered := ordered s; regress := regress s; nexp := nexp s; next_tid := next_tid s; threads := threads s |}.
+Definition set_closing (s : st) (v : bool) : st :=
+  {| hmap := hmap s; next_hid := next_hid s; hpub := hpub s; pending := pending s; ptaker := ptaker s; amu := amu s; smu := smu s; refs := refs s; sem := sem s; latest := latest s; lsrc := lsrc s; pubhead := pubhead s; lastRecv := lastRecv s; lastTaken := lastTaken s; events := events s; hooks := hooks s; ehooks := ehooks s; gtodo := gtodo s; goal := goal s; closing := v; panicked := panicked s; ordered := ordered s; regress := regress s; nexp := nexp s; next_tid := next_tid s; threads := threads s |}.
 Definition set_panicked (s : st) (v : bool) : st :=
-  {| hmap := hmap s; next_hid := next_hid s; hpub := hpub s; pending := pending s; ptaker := ptaker s; amu := amu s; smu := smu s; refs := refs s; sem := sem s; latest := latest s; lsrc := lsrc s; pubhead := pubhead s; lastRecv := lastRecv s; lastTaken := lastTaken s; events := events s; hooks := hooks s; ehooks := ehooks s; gtodo := gtodo s; goal := goal s; panicked := v; ordered := ordered s; regress := regress s; nexp := nexp s; next_tid := next_tid s; threads := threads s |}.
+  {| hmap := hmap s; next_hid := next_hid s; hpub := hpub s; pending := pending s; ptaker := ptaker s; amu := amu s; smu := smu s; refs := refs s; sem := sem s; latest := latest s; lsrc := lsrc s; pubhead := pubhead s; lastRecv := lastRecv s; lastTaken := lastTaken s; events := events s; hooks := hooks s; ehooks := ehooks s; gtodo := gtodo s; goal := goal s; closing := closing s; panicked := v; ordered := ordered s; regress := regress s; nexp := nexp s; next_tid := next_tid s; threads := threads s |}.
 Definition set_ordered (s : st) (v : bool) : st :=
-  {| hmap := hmap s; next_hid := next_hid s; hpub := hpub s; pending := pending s; ptaker := ptaker s; amu := amu s; smu := smu s; refs := refs s; sem := sem s; latest := latest s; lsrc := lsrc s; pubhead := pubhead s; lastRecv := lastRecv s; lastTaken := lastTaken s; events := events s; hooks := hooks s; ehooks := ehooks s; gtodo := gtodo s; goal := goal s; panicked := panicked s; ordered := v; regress := regress s; nexp := nexp s; next_tid := next_tid s; threads := threads s |}.
+  {| hmap := hmap s; next_hid := next_hid s; hpub := hpub s; pending := pending s; ptaker := ptaker s; amu := amu s; smu := smu s; refs := refs s; sem := sem s; latest := latest s; lsrc := lsrc s; pubhead := pubhead s; lastRecv := lastRecv s; lastTaken := lastTaken s; events := events s; hooks := hooks s; ehooks := ehooks s; gtodo := gtodo s; goal := goal s; closing := closing s; panicked := panicked s; ordered := v; regress := regress s; nexp := nexp s; next_tid := next_tid s; threads := threads s |}.
 Definition set_regress (s : st) (v : bool) : st :=
-  {| hmap := hmap s; next_hid := next_hid s; hpub := hpub s; pending := pending s; ptaker := ptaker s; amu := amu s; smu := smu s; refs := refs s; sem := sem s; latest := latest s; lsrc := lsrc s; pubhead := pubhead s; lastRecv := lastRecv s; lastTaken := lastTaken s; events := events s; hooks := hooks s; ehooks := ehooks s; gtodo := gtodo s; goal := goal s; panicked := panicked s; ordered := ordered s; regress := v; nexp := nexp s; next_tid := next_tid s; threads := threads s |}.
+  {| hmap := hmap s; next_hid := next_hid s; hpub := hpub s; pending := pending s; ptaker := ptaker s; amu := amu s; smu := smu s; refs := refs s; sem := sem s; latest := latest s; lsrc := lsrc s; pubhead := pubhead s; lastRecv := lastRecv s; lastTaken := lastTaken s; events := events s; hooks := hooks s; ehooks := ehooks s; gtodo := gtodo s; goal := goal s; closing := closing s; panicked := panicked s; ordered := ordered s; regress := v; nexp := nexp s; next_tid := next_tid s; threads := threads s |}.
 Definition set_nexp (s : st) (v : bool) : st :=
-  {| hmap := hmap s; next_hid := next_hid s; hpub := hpub s; pending := pending s; ptaker := ptaker s; amu := amu s; smu := smu s; refs := refs s; sem := sem s; latest := latest s; lsrc := lsrc s; pubhead := pubhead s; lastRecv := lastRecv s; lastTaken := lastTaken s; events := events s; hooks := hooks s; ehooks := ehooks s; gtodo := gtodo s; goal := goal s; panicked := panicked s; ordered := ordered s; regress := regress s; nexp := v; next_tid := next_tid s; threads := threads s |}.
+  {| hmap := hmap s; next_hid := next_hid s; hpub := hpub s; pending := pending s; ptaker := ptaker s; amu := amu s; smu := smu s; refs := refs s; sem := sem s; latest := latest s; lsrc := lsrc s; pubhead := pubhead s; lastRecv := lastRecv s; lastTaken := lastTaken s; events := events s; hooks := hooks s; ehooks := ehooks s; gtodo := gtodo s; goal := goal s; closing := closing s; panicked := panicked s; ordered := ordered s; regress := regress s; nexp := v; next_tid := next_tid s; threads := threads s |}.
 Definition set_next_tid (s : st) (v : nat) : st :=
-  {| hmap := hmap s; next_hid := next_hid s; hpub := hpub s; pending := pending s; ptaker := ptaker s; amu := amu s; smu := smu s; refs := refs s; sem := sem s; latest := latest s; lsrc := lsrc s; pubhead := pubhead s; lastRecv := lastRecv s; lastTaken := lastTaken s; events := events s; hooks := hooks s; ehooks := ehooks s; gtodo := gtodo s; goal := goal s; panicked := panicked s; ordered := ordered s; regress := regress s; nexp := nexp s; next_tid := v; threads := threads s |}.
+  {| hmap := hmap s; next_hid := next_hid s; hpub := hpub s; pending := pending s; ptaker := ptaker s; amu := amu s; smu := smu s; refs := refs s; sem := sem s; latest := latest s; lsrc := lsrc s; pubhead := pubhead s; lastRecv := lastRecv s; lastTaken := lastTaken s; events := events s; hooks := hooks s; ehooks := ehooks s; gtodo := gtodo s; goal := goal s; closing := closing s; panicked := panicked s; ordered := ordered s; regress := regress s; nexp := nexp s; next_tid := v; threads := threads s |}.
 Definition set_threads (s : st) (v : nat -> option thread) : st :=
-  {| hmap := hmap s; next_hid := next_hid s; hpub := hpub s; pending := pending s; ptaker := ptaker s; amu := amu s; smu := smu s; refs := refs s; sem := sem s; latest := latest s; lsrc := lsrc s; pubhead := pubhead s; lastRecv := lastRecv s; lastTaken := lastTaken s; events := events s; hooks := hooks s; ehooks := ehooks s; gtodo := gtodo s; goal := goal s; panicked := panicked s; ordered := ordered s; regress := regress s; nexp := nexp s; next_tid := next_tid s; threads := v |}.
+  {| hmap := hmap s; next_hid := next_hid s; hpub := hpub s; pending := pending s; ptaker := ptaker s; amu := amu s; smu := smu s; refs := refs s; sem := sem s; latest := latest s; lsrc := lsrc s; pubhead := pubhead s; lastRecv := lastRecv s; lastTaken := lastTaken s; events := events s; hooks := hooks s; ehooks := ehooks s; gtodo := gtodo s; goal := goal s; closing := closing s; panicked := panicked s; ordered := ordered s; regress := regress s; nexp := nexp s; next_tid := next_tid s; threads := v |}.
 
 (* named yield points of dagsync/subscriber.go (build tag verif) and the harness's own
    block hook / end-of-thread observations *)
@@ -155,6 +158,11 @@ Inductive label :=
 | Spawn (p : nat)                   (* a caller enters SyncAdChain for publisher p *)
 | SpawnE (p n : nat)                (* a caller enters SyncEntries for an entries chain of n blocks of publisher p *)
 | Remove (p : nat) (removed : bool) (* RemoveHandler(p) / the idle cleaner, and what it returned *)
+| CloseBegin                        (* Subscriber.Close: doClose closes s.closing (and then waits for the
+                                       explicit syncs).  No goroutine of this model reads s.closing: the
+                                       semaphore wait ends only with a slot or with the watcher's context,
+                                       which is cancelled after the explicit syncs are done and the receiver
+                                       is closed -- from there on it is C15's model *)
 | AnnRejected (p c : nat)           (* an announcement of head c the receiver's allow filter rejected:
                                        it never reaches receiver.Next and leaves no trace *)
 | Step (t : nat) (ok : bool).       (* thread t performs its next operation; ok: the sync succeeds
@@ -409,6 +417,7 @@ Section Step.
         if removed then (if busy then None else Some (set_hmap s (updf (hmap s) p None), None))
         else (if busy then Some (s, None) else None)
       end
+    | CloseBegin => if closing s then None else Some (set_closing s true, None)
     | AnnRejected _ _ => Some (s, None)
     | Step t ok =>
       match threads s t with
@@ -430,7 +439,7 @@ Definition init : st :=
      sem := []; latest := fun _ => 0; lsrc := fun _ => false; pubhead := fun _ => 0;
      lastRecv := fun _ => 0; lastTaken := fun _ => 0; events := []; hooks := []; ehooks := [];
      gtodo := fun _ => []; goal := fun _ => 0;
-     panicked := false; ordered := true; regress := false; nexp := false;
+     closing := false; panicked := false; ordered := true; regress := false; nexp := false;
      next_tid := 1;
      threads := fun t => if Nat.eqb t 0 then Some watcher_thread else None |}.
 
